@@ -51,7 +51,7 @@ OPS = CTORS + [
     "copy()", "copy(dtype=complex)",
     "a+b", "a-1.5", "a*b", "a/b", "a**2",
     "a+=b", "a-=1.5", "a*=b", "a/=2.0", "a**=2",
-    "a.data=arr", "fc[0]=b", "fc[label]=b",
+    "a.data=arr", "fc[0]=b", "fc[label]=b", "fc[duplabel]=b",
     "v[0]=b", "v[axis]=b", "v[0]=arr", "t[0,d-1]=b", "t[axis,axis]=b", "t[0,d-1]=2.5",
     "-a", "a.real", "a.conjugate()",
     "laplace(bc)", "gradient(bc)", "laplace(bc,out=b)", "gradient(bc,out=b)",
@@ -66,6 +66,7 @@ OPS_THOROUGH_ONLY = [
     "smooth(out=b)", "trace()", "transpose()", "transpose(inplace=True)", "symmetrize()",
     "symmetrize(inplace=True)", "project/slice",
 ]
+FC_SETITEM = {"fc[0]=b": 0, "fc[label]=b": -1, "fc[duplabel]=b": 0}  # op -> addressed member
 MODEL_AXES = {"UnitGrid": 1, "CartesianGrid": 2, "PolarSymGrid": 1, "CylindricalSymGrid": 2}
 SLICEABLE = {"CartesianGrid", "CylindricalSymGrid"}  # project()/slice() are implemented for these only
 # component assignments: op -> (kind of the target, which component, kind of the value)
@@ -175,8 +176,8 @@ class Model:
         if op in ("a+=b", "a*=b"):
             return [(i, j) for i in idx for j in idx
                     if (H[j].kind == "S" or same(H[i], H[j])) and (H[i].cx or not H[j].cx)]
-        if op in ("fc[0]=b", "fc[label]=b"):
-            mi = 0 if op == "fc[0]=b" else -1
+        if op in FC_SETITEM:
+            mi = FC_SETITEM[op]
             return [(i, j) for i in col for j in fld
                     if H[j].kind in ("S", H[i].members[mi].kind) and (H[i].members[mi].cx or not H[j].cx)]
         if op in COMP_ASSIGN:
@@ -282,8 +283,8 @@ class Model:
             return new(self.duplicate(a, op, False))
         if op in INPLACE or op == "a.data=arr":
             return Effect(None, wv=a.cells(), outcome="write valid cells")
-        if op in ("fc[0]=b", "fc[label]=b"):
-            m = a.members[0 if op == "fc[0]=b" else -1]
+        if op in FC_SETITEM:
+            m = a.members[FC_SETITEM[op]]
             return Effect(None, wv=m.cells(), outcome="write valid cells of member")
         if op in COMP_ASSIGN:  # only the valid cells of exactly that component
             return Effect(None, wv=[(a.buf, a.off + comp_index(COMP_ASSIGN[op][1], dim))],
@@ -451,6 +452,10 @@ class World:
         if op == "fc[label]=b":
             a.labels = [f"m{k}" for k in range(len(a))]
             a[f"m{len(a) - 1}"] = b
+            return None
+        if op == "fc[duplabel]=b":  # several members carry the label: the first one is addressed (docstring)
+            a.labels = ["m"] * len(a)
+            a["m"] = b
             return None
         if op in COMP_ASSIGN:
             which, val = COMP_ASSIGN[op][1:]
@@ -699,15 +704,15 @@ def step(W, M, op, args, check=True):
             got = R[args[0]].data.reshape((-1,) + tuple(W.grid.shape))[comp_index(which, W.dim)]
             exp = np.broadcast_to(before[args[1]][W.vidx] if val == "field" else
                                   (2.5 if val == "number" else W.vals(tuple(W.grid.shape), 91)), got.shape)
-        if op in ("fc[0]=b", "fc[label]=b"):  # through the collection (model: the member lives where the model says)
-            m0 = H[args[0]].members[0 if op == "fc[0]=b" else -1]
+        if op in FC_SETITEM:  # through the collection (model: the member lives where the model says)
+            m0 = H[args[0]].members[FC_SETITEM[op]]
             if m0.buf == H[args[0]].buf:
                 got = R[args[0]].data[m0.off:m0.off + m0.n]
                 src = before[args[1]][W.vidx].reshape((-1,) + tuple(W.grid.shape))
                 exp = np.broadcast_to(src, got.shape)
         # (values: same numpy ufunc on the saved operands; 1e-12 covers numpy's scalar-power fast paths)
         if exp is not None and not np.allclose(np.asarray(got), exp, rtol=1e-12, atol=0.0):
-            t = f" [{TAG}]" if TAG in H[args[0]].prov or (op in ("fc[0]=b", "fc[label]=b") and H[args[0]].copying) else ""
+            t = f" [{TAG}]" if TAG in H[args[0]].prov or (op in FC_SETITEM and H[args[0]].copying) else ""
             viol.append(_v(W, op, f"target does not hold the written values{t}", f"{got!r} != {exp!r}"))
     # ---- every pair of handles: np.shares_memory == model ----
     cellsets = [set(m.cells()) for m in H]
